@@ -45,6 +45,11 @@ def replay_args(tag, rec):
             # the same observation is a statement of C08 too ("each accepted run writes exactly the requested number of files")
             cl('C08', 'accepted_run_writes_requested_files', r['outcome'] == 'ok' and r['listing'] == exp,
                'Generator(%s) -> %s, files %s' % (' '.join(r['argv']), r['outcome'], r['listing']))
+            if 'history' in r:
+                # MPGen: runs share nothing and FinishFile makes k.txt BE the rendered text: the files of a run do not depend on an
+                # earlier run of the same process or on what the output directory already contained
+                cl('C08', 'files_independent_of_earlier_runs', r['history']['agrees'],
+                   'Generator(%s): %s' % (' '.join(r['argv']), r['history'].get('what', '')))
             if r['outcome'] == 'ok':
                 traces.append({'args': {'mp': rec['mp'], 'numinst': rec['numinst'], 'given': sorted(rec['given']), 'v': rec['v']},
                                'listing': gendrive.listing_numbers(r['listing']), 'files': r['files'], 'seed': sd, 'key': key})
@@ -65,7 +70,7 @@ def count_sets(maxn, counts=None):
 
 def m1_generate(rep, tier):
     """exhaustive run of the generator machine over all draws (tiny counts)"""
-    res = tlc.run('MC_Gen', dict(MaxN=2, N1s={1, 2}, N2s={1, 2}, N3s={1, 2}, NumInsts={1} if tier == 'quick' else {1, 2}, Perturb=False, Generate=True,
+    res = tlc.run('MC_Gen', dict(MaxN=2, MinLen=1, N1s={1, 2}, N2s={1, 2}, N3s={1, 2}, NumInsts={1} if tier == 'quick' else {1, 2}, Perturb=False, Generate=True,
                                  TypesUsed={'ha', 'sm', 'hr', 'spa'}, Rich=False, Spells={'short'}),
                   spec='MSpec', invariants=M1_INV, label='MPGen machine over every random draw (counts <= 2)', timeout=3000)
     tlc.require_ok(res, rep.pid)
@@ -74,7 +79,7 @@ def m1_generate(rep, tier):
 
 
 def collect(rep, pool, tier, seed, perturb, nseeds, maxn=2, rich=False, sim=None, label='', counts=None, types=None,
-            only_twosided=False, numinsts=None, every=1, spells=None):
+            only_twosided=False, numinsts=None, every=1, spells=None, minlen=1):
     """Runs MC_Gen, replays vectors, returns list of traces of accepted runs."""
     traces = []
     seen = set()
@@ -99,7 +104,7 @@ def collect(rep, pool, tier, seed, perturb, nseeds, maxn=2, rich=False, sim=None
         rec['_seeds'] = [seed * 1000 + h % 997 + i for i in range(nseeds)]
         return True
     res = engine.tlc_replay(rep, pool, 'MC_Gen', replay_args,
-                            consts=dict(MaxN=maxn, NumInsts=numinsts or {1, 2}, Perturb=perturb, Generate=False,
+                            consts=dict(MaxN=maxn, MinLen=minlen, NumInsts=numinsts or {1, 2}, Perturb=perturb, Generate=False,
                                         TypesUsed=types or {'ha', 'sm', 'hr', 'spa'}, Rich=rich,
                                         Spells=spells or ({'short', 'long'} if perturb else {'short'}),
                                         **count_sets(maxn, counts)),
